@@ -282,6 +282,13 @@ pub fn rt_obj<T: IntoJson + FromJson + PartialEq + std::fmt::Debug + Clone>(st: 
     // through text as well
     match Value::parse(j.serialize()).ok().and_then(|p| T::from_json(&p).ok()) { Some(b) if b == v => {}, other => fail(st, kind, format!("round trip through text: {:?} vs {:?}", other, v)) }
 }
+pub fn rt_only<T: IntoJson + FromJson + PartialEq + std::fmt::Debug + Clone>(st: &mut St, kind: &str, v: T, nkeys: usize) {
+    st.ran += 1;
+    let j = v.to_json();
+    match &j { Value::Object(o) if o.len() == nkeys => {}, _ => return fail(st, kind, format!("shape: to_json() = {} is not an object with {} members", j.serialize(), nkeys)) }
+    match T::from_json(&j) { Ok(b) if b == v => {}, other => return fail(st, kind, format!("round trip: from_json(to_json(v)) = {:?}, v = {:?}", other.ok(), v)) }
+    match Value::parse(j.serialize()).ok().and_then(|p| T::from_json(&p).ok()) { Some(b) if b == v => {}, other => fail(st, kind, format!("round trip through text: {:?} vs {:?}", other, v)) }
+}
 pub fn rt_arr<T: IntoJson + FromJson + PartialEq + std::fmt::Debug + Clone>(st: &mut St, kind: &str, v: T, parts: &[&str]) {
     st.ran += 1;
     let j = v.to_json();
@@ -382,6 +389,21 @@ pub fn run(mut cx: Ctx) -> ! {
         g.named(&[FT::Str, FT::I64], false, &[*r, None]);
         g.named(&[FT::OptI32, FT::VecStr], false, &[None, *r]);
         g.named(&[FT::Bool], true, &[*r]);
+    }
+    // field identifiers that are Rust keywords (raw identifiers): the key spelling is not pinned, the round trip is;
+    // json_map! keys that differ only in letter case are different keys
+    g.decls.push_str("#[derive(Debug, PartialEq, Clone, FromJson, IntoJson)]\nstruct Raw1 { r#type: String, r#match: Option<i32>, plain: bool }\n");
+    g.decls.push_str("#[derive(Debug, PartialEq, Clone, FromJson, IntoJson)]\nstruct Raw2 { #[rename = \"kind\"] r#type: String, r#loop: i64 }\n");
+    g.decls.push_str("#[derive(Debug, PartialEq, Clone)]\nstruct Case1 { a: i64, b: i64, c: String }\njson_map! { Case1, a => \"id\", b => \"ID\", c => \"Id\" }\n");
+    g.decls.push_str("#[derive(Debug, PartialEq, Clone)]\nstruct Case2 { a: Option<i32>, b: String }\njson_map! { Case2, a => \"x\", b => \"X\" }\n");
+    for (kind, line) in [
+        ("derive struct with raw-identifier fields value #0", "    rt_only(&mut st, \"derive struct with raw-identifier fields value #0\", Raw1 { r#type: \"t\".to_string(), r#match: Some(3), plain: true }, 3);"),
+        ("derive struct with raw-identifier fields value #1", "    rt_only(&mut st, \"derive struct with raw-identifier fields value #1\", Raw1 { r#type: String::new(), r#match: None, plain: false }, 3);"),
+        ("derive struct with a renamed raw-identifier field", "    rt_only(&mut st, \"derive struct with a renamed raw-identifier field\", Raw2 { r#type: \"t\".to_string(), r#loop: -7 }, 2);"),
+        ("json_map! keys differing only in letter case value #0", "    rt_obj(&mut st, \"json_map! keys differing only in letter case value #0\", Case1 { a: 1, b: 2, c: \"x\".to_string() }, &[(\"id\", \"1\"), (\"ID\", \"2\"), (\"Id\", r#\"\"x\"\"#)]);"),
+        ("json_map! keys differing only in letter case value #1", "    rt_obj(&mut st, \"json_map! keys differing only in letter case value #1\", Case2 { a: Some(5), b: \"s\".to_string() }, &[(\"x\", \"5\"), (\"X\", r#\"\"s\"\"#)]);"),
+    ] {
+        g.lines.push((kind.to_string(), line.to_string()));
     }
     for n in 1..=3 {
         g.enumeration(n, &[]);
